@@ -2,7 +2,7 @@
    Statements only; proofs in Proofs/C07.v and Proofs/C02.v; models in Model/C01.v, Model/C02.v.
    Over any commutative ring with conjugation, every dimension n and number of bath components Nb. *)
 From Coq Require Import ZArith List Bool Arith.
-From QV Require Import Base.Alg Base.Sums Base.Mat Base.Tens Base.Taylor Base.TaylorG Model.C01 Model.C02 Proofs.C01 Proofs.C07 Proofs.C02.
+From QV Require Import Base.Alg Base.Sums Base.Mat Base.Tens Base.Taylor Base.TaylorG Model.C01 Model.C02 Model.C07glue Proofs.C01 Proofs.C07 Proofs.C02 Proofs.C07gen.
 Import ListNotations.
 
 (* the tensor built by _convert_operators_2_tensor, applied by tensordot, acts on EVERY operator exactly as the
@@ -74,3 +74,41 @@ Theorem c07_td_index_walk :
   (td_walk WalkPinned 4 1 1 3 = [1; 2; 3; 3]%nat /\ td_walk WalkRepaired 4 1 1 3 = [1; 2; 2; 2]%nat).
 Proof. split; [exact td_walk_repaired_in_range|]. split; [exact td_walk_same_below|exact td_walk_pinned_witness]. Qed.
 Print Assumptions c07_td_index_walk.
+
+(* ---------------- glue (Model/C07glue.v; proofs in Proofs/C07gen.v) ---------------- *)
+
+(* apply(): whichever representation is live acts the same, and convert_2_tensor switches the representation (flag cleared, the
+   tensor built from the stored operators) without changing the action; it does nothing to a tensor already in four-index form *)
+Theorem c07_apply_before_and_after_conversion : forall (R : StarRing) n Nb (Km Lm Ld : nat -> @mat R) (T : @tens R) (rho : @mat R),
+  meq n (rt_apply n false Nb Km Lm Ld (convert_ops n Nb Km Lm Ld) rho) (rt_apply n true Nb Km Lm Ld T rho) /\
+  fst (convert_2_tensor n true Nb Km Lm Ld T) = false /\
+  meq n (rt_apply n (fst (convert_2_tensor n true Nb Km Lm Ld T)) Nb Km Lm Ld (snd (convert_2_tensor n true Nb Km Lm Ld T)) rho)
+        (rt_apply n true Nb Km Lm Ld T rho) /\
+  convert_2_tensor n false Nb Km Lm Ld T = (false, T).
+Proof. intros R n Nb Km Lm Ld T rho. split; [exact (rt_apply_forms n Nb Km Lm Ld T rho)|exact (convert_2_tensor_spec n Nb Km Lm Ld T rho)]. Qed.
+Print Assumptions c07_apply_before_and_after_conversion.
+
+(* both codes build Lambda_m from the same running integral c(t) = sr(t) + i si(t) (an oracle): the time-independent one from its value
+   at the last index of the (cut) axis, the time-dependent one from its value at every index.  Hence the time-dependent tensor at the
+   last index IS the time-independent tensor, and it vanishes at the first index where the running integral is zero *)
+Theorem c07_td_limits_from_the_running_integral : forall (R : StarRing) n (im : R) (sr si : nat -> nat -> nat -> nat -> R) Nb (Km : nat -> @mat R) length,
+  (forall m, (m < Nb)%nat -> sym_mat n (Km m)) ->
+  teq n (td_redfield_tensor n Nb Km (lam_td im sr si Km (length - 1))) (redfield_tensor n Nb Km (lam_ti im sr si Km length)) /\
+  ((forall ms a b, sr ms a b 0%nat = r0 R) -> (forall ms a b, si ms a b 0%nat = r0 R) ->
+     teq n (td_redfield_tensor n Nb Km (lam_td im sr si Km 0)) (fun _ _ _ _ => r0 R)).
+Proof.
+  intros R n im sr si Nb Km length HK. split; [exact (td_last_tensor_is_ti_tensor n im sr si Nb Km length HK)|exact (td_first_tensor_is_zero n im sr si Nb Km)].
+Qed.
+Print Assumptions c07_td_limits_from_the_running_integral.
+
+(* time-local propagation in operator form: the repaired nest uses, in every refined step, the operator family the tensor-form nest
+   uses (Model.C02.td_walk); the pinned nest (one family per outer step, advanced by one) did so only on the bath's own axis without
+   refinement - with a propagation step of two bath steps it used the families 1,2,3 where the tensor form uses 1,3,5, with two
+   refined steps per step 1,1,2,2 instead of 1,2,3,4: the two forms did not generate the same dynamics; repaired by a fix: commit *)
+Theorem c07_td_operator_walk :
+  (forall nsteps nref stride cutoff, ops_td_walk OpsWalkRepaired nsteps nref stride cutoff = td_walk WalkRepaired (nsteps * nref) 1 stride cutoff) /\
+  (forall nsteps cutoff, (2 <= cutoff)%nat -> ops_td_walk OpsWalkPinned nsteps 1 1 cutoff = td_walk WalkRepaired (nsteps * 1) 1 1 cutoff) /\
+  (ops_td_walk OpsWalkPinned 3 1 2 10 = [1; 2; 3]%nat /\ td_walk WalkRepaired 3 1 2 10 = [1; 3; 5]%nat) /\
+  (ops_td_walk OpsWalkPinned 2 2 1 10 = [1; 1; 2; 2]%nat /\ td_walk WalkRepaired 4 1 1 10 = [1; 2; 3; 4]%nat).
+Proof. exact ops_td_walk_spec. Qed.
+Print Assumptions c07_td_operator_walk.
